@@ -314,6 +314,15 @@ func stepFamily(isCtx bool) *family {
 
 		if isCtx {
 			emit("rule-level-override(forward_headers)", base, p.with(merge(baseOv(sc), m("forward_headers", []any{"X-Trace"}))), in, in)
+
+			// the remote system is unavailable: a rule that tolerates that primes the cache, a rule that does not is judged
+			down := proto(sc, "m1", nil, "ab", "c", []string{"s1", "s2"})
+			ep, _ := down.Config["endpoint"].(map[string]any)
+			ep["url"] = "http://" + hostCtx + "/unavailable"
+			down.Config["continue_pipeline_on_error"] = true
+
+			emit("rule-level-override(continue_pipeline_on_error:true->false)/endpoint-unavailable",
+				down.with(baseOv(sc)), down.with(merge(baseOv(sc), m("continue_pipeline_on_error", false))), in, in)
 		} else {
 			allow := m("expressions", []any{m("expression", "Payload.allow == true")})
 			deny := m("expressions", []any{m("expression", "Payload.allow == false")})
